@@ -339,6 +339,10 @@ class Intrinsics:
 
     def equal(self, a, b):
         ex = self.ex
+        if isinstance(a, HListView):
+            a = SSeq(a.seq, "any")
+        if isinstance(b, HListView):
+            b = SSeq(b.seq, "any")
         if a is None or b is None:
             o = b if a is None else a
             if o is None:
@@ -456,6 +460,11 @@ class Intrinsics:
 
     def contains(self, container, item):
         ex = self.ex
+        if isinstance(container, HSet):
+            if container.kind is None:
+                return False
+            t, k = ex.lift(item)
+            return z3.Select(container.has, t) if k == container.kind else False
         if is_tagged(container, "pathparts"):
             if item == "..":
                 return container[1].pardir
@@ -530,6 +539,8 @@ class Intrinsics:
             if "__getitem__" in obj.hooks:
                 return obj.hooks["__getitem__"](ex, obj, [key], {})
             raise Unsupported(f"subscript of the abstracted list {obj.name}")
+        if isinstance(obj, HListView):
+            return self.subscript(SSeq(obj.seq, "any"), key)
         if isinstance(key, tuple) and key and key[0] == "slice":
             _, lo, hi, step = key
             if step is not None:
@@ -765,6 +776,12 @@ class Intrinsics:
                 ex.raise_builtin("KeyError", "dict key")
             return default
         kt, kk = ex.lift(key)
+        if getattr(d, "list_default", False) and raise_missing and kk == d.ksort:
+            # defaultdict(list): a missing key is created with an empty list (representation invariant:
+            # absent keys hold the empty sequence); the result aliases the stored list
+            if not ex.pure:
+                d.has = z3.Store(d.has, kt, z3.BoolVal(True))
+            return HListView(d, kt)
         present = z3.Select(d.has, kt) if kk == d.ksort else z3.BoolVal(False)
         if ex.pure:
             return wrap(z3.Select(d.val, kt), d.vkind)
@@ -896,6 +913,10 @@ class Intrinsics:
 
                 return ExternalRef(markupsafe.Markup if isinstance(obj, SMarkup) else str, "str")
             return BoundIntrinsic(obj, "str", attr)
+        if isinstance(obj, HSet):
+            return BoundIntrinsic(obj, "set", attr)
+        if isinstance(obj, HListView):
+            return BoundIntrinsic(obj, "listview", attr)
         if isinstance(obj, (HList, HJoin)):
             return BoundIntrinsic(obj, "list", attr)
         if isinstance(obj, HDict):
@@ -931,8 +952,12 @@ class Intrinsics:
             if attr in ex.contract.opaque_methods:
                 rt = ex.contract.opaque_methods[attr]
                 self.use(f"dynamic dispatch {attr}(): opaque call on an AST node of any subclass")
+                if isinstance(rt, tuple) and rt[0] == "cm":
+                    pc = PyCallable(lambda ex_, a, k, _o=obj, _m=attr, _h=rt[1]: _h(ex_, _o, _m, list(a), k), attr)
+                    pc.is_cm = True
+                    return pc
                 if callable(rt) and not hasattr(rt, "fresh"):
-                    return PyCallable(lambda ex_, a, k, _o=obj, _m=attr, _h=rt: _h(ex_, _o, _m, list(a)), attr)
+                    return PyCallable(lambda ex_, a, k, _o=obj, _m=attr, _h=rt: _h(ex_, _o, _m, list(a), **({"kwargs": k} if getattr(_h, "wants_kwargs", False) else {})), attr)
                 return PyCallable(lambda ex_, a, k, _m=attr, _t=rt: (_t.fresh(ex_, f"{_m}_result") if _t is not None else None), attr)
             if attr in ("items", "keys", "values"):
                 self.use("Mapping.items()/keys()/values() of opaque data: an opaque iterable, empty iff the mapping is falsy")
@@ -1209,6 +1234,8 @@ class Intrinsics:
         if self.is_enum(cref):
             raise Unsupported("enum construction by value")
         decos = [ast.unparse(d) for d in cref.node.decorator_list]
+        if cref.name in ex.contract.opaque_classes:
+            return self.construct_opaque(cref, args, kwargs, frame)
         obj = HObj(cref, {})
         if any(d.startswith("dataclass") for d in decos):
             self.dataclass_init(obj, cref, args, kwargs, frame)
@@ -1225,6 +1252,28 @@ class Intrinsics:
             self.external_method(obj, r[1], "__init__", args, kwargs)
             return obj
         raise Unsupported(f"constructor of {cref.name}")
+
+    def construct_opaque(self, cref, args, kwargs, frame):
+        """Instance of a (data)class as an opaque object of the component heap: a fresh reference,
+        distinct from every object the function received, with its declared fields initialised."""
+        ex = self.ex
+        tmp = HObj(cref, {})
+        self.dataclass_init(tmp, cref, args, kwargs, frame)
+        o = ex.fresh(f"new_{cref.name}", "any")
+        ex.assume(z3.Function("is_fresh_object", ObjSort, BoolSort)(o.t))
+        self.use(f"{cref.name}(...): a fresh object, distinct from all objects reachable before the call")
+        from .specs import field_fn
+
+        for fname, val in tmp.fields.items():
+            kind = ex.contract.obj_fields.get(fname)
+            if kind is None or kind == "sink":
+                continue
+            if fname in ex.contract.mutable_fields:
+                arr = ex.heap_field_array(fname)
+                ex.heap_fields[fname] = z3.Store(arr, o.t, ex.to_field_term(val, kind))
+            else:
+                ex.assume(field_fn(fname, kind)(o.t) == ex.to_field_term(val, kind))
+        return o
 
     def dataclass_init(self, obj, cref, args, kwargs, frame):
         ex = self.ex
@@ -1299,11 +1348,25 @@ class Intrinsics:
         ex = self.ex
         f = None
         selfv = None
+        if isinstance(fv, BoundMethod) and isinstance(ex.contract.opaque_methods.get(fv.func.node.name), tuple):
+            hook = ex.contract.opaque_methods[fv.func.node.name][1]
+
+            def cm_hook(body, _o=fv.self_val, _a=args, _k=kwargs, _m=fv.func.node.name):
+                body(hook(ex, _o, _m, list(_a), _k))
+
+            return cm_hook
         if isinstance(fv, BoundMethod):
             f, selfv = fv.func, fv.self_val
             args = [selfv] + list(args)
         elif isinstance(fv, FuncRef):
             f = fv
+        if isinstance(fv, PyCallable) and getattr(fv, "is_cm", False):
+            # an opaque context manager (contract hook): enter is the hook, the body runs, exit does nothing observable
+            def cm_opaque(body, _fv=fv, _a=args, _k=kwargs):
+                v = _fv.fn(ex, _a, _k)
+                body(v)
+
+            return cm_opaque
         if isinstance(fv, ExternalRef) and fv.qual.endswith("suppress"):
             names = [a.obj.__name__ if isinstance(a, ExternalRef) else a.name for a in args]
             self.use("contextlib.suppress(E): swallows exceptions of class E raised by the body")
@@ -1421,7 +1484,11 @@ def py_floordiv(a, b):
     return z3.If(b > 0, q, z3.If(a % b == 0, q, q - 1))
 
 
-F_is_none = z3.Function("is_none", ObjSort, BoolSort)
+NONE_OBJ = z3.Const("box.None", ObjSort)   # the one denotation of None among opaque values
+
+
+def F_is_none(t):
+    return t == NONE_OBJ
 F_is_true = z3.Function("is_true", ObjSort, BoolSort)
 F_is_false = z3.Function("is_false", ObjSort, BoolSort)
 
